@@ -154,15 +154,16 @@ EXPORT errno_t _mbsrtowcs_s_chk(size_t *restrict retvalp,
         } else {
             if (unlikely(destsz > destbos || len * sizeof(wchar_t) > destbos)) {
                 if (unlikely(dmax > RSIZE_MAX_WSTR || len > RSIZE_MAX_WSTR)) {
-                    invoke_safe_str_constraint_handler("mbsrtowcs_s"
-                                                       ": dmax/len exceeds max",
-                                                       (void *)dest, ESLEMAX);
+                    handle_werror(dest, dmax < destbos / sizeof(wchar_t) ? dmax : destbos / sizeof(wchar_t),
+                                  "mbsrtowcs_s"
+                                  ": dmax/len exceeds max",
+                                  ESLEMAX);
                     return RCNEGATE(ESLEMAX);
                 } else {
-                    invoke_safe_str_constraint_handler(
-                        "mbsrtowcs_s"
-                        ": dmax/len exceeds destsz",
-                        (void *)dest, EOVERFLOW);
+                    handle_werror(dest, dmax < destbos / sizeof(wchar_t) ? dmax : destbos / sizeof(wchar_t),
+                                  "mbsrtowcs_s"
+                                  ": dmax/len exceeds destsz",
+                                  EOVERFLOW);
                     return RCNEGATE(EOVERFLOW);
                 }
             }
